@@ -241,6 +241,84 @@ end HC
 
 namespace HC
 
+/-! ### squaring (`bgv_square`, `ckks_square`, `bfv_square` of src/evaluator.rs): NOT defined as a product with itself — the code has a
+    fast path for size 2 (c0², 2·c0·c1 computed as `c0·c1` ADDED TO ITSELF, c1²) and falls back to the product routine
+    (`self.xxx_multiply(encrypted, &encrypted.clone())`) for every other size.  That these are the products `x·x` is a theorem
+    (Proofs/C02S.lean), not a definition. -/
+
+/-- `bgv_square`, data part: NTT form required; sizes ≠ 2 go to `bgv_multiply(encrypted, &encrypted.clone())`; for size 2 the destination
+    is resized to 3 (`resize`: `ctResizeRefuses`), then in the order of the code `temp[0] = c0 ⊙ c0`, `temp[1] = c0 ⊙ c1`,
+    `temp[1] += temp[1]` (`add_inplace_p` of the block to itself through a raw-pointer alias: coefficient-wise, so every word is read
+    before it is written), `temp[2] = c1 ⊙ c1`; the correction factor becomes cf·cf mod t -/
+def bgvSquare (l : Level) (a : Ct) : R Ct := do
+  if !a.ntt then .error .refused else
+  if a.polys.size ≠ 2 then bgvMultiply l a a else
+  if ctResizeRefuses (a.polys.size + a.polys.size - 1) then .error .refused else
+  let c0 := a.polys.getD 0 #[]; let c1 := a.polys.getD 1 #[]
+  let d0 ← rnsDyadic l c0 c0
+  let m ← rnsDyadic l c0 c1
+  let d1 ← rnsAdd l m m
+  let d2 ← rnsDyadic l c1 c1
+  let cf ← mulMod a.cf a.cf l.t
+  pure { a with polys := #[d0, d1, d2], cf := cf }
+
+/-- `ckks_square`, data part (the scale bookkeeping is `ckksProductBookkeeping`, as for `ckks_multiply`): sizes ≠ 2 go to
+    `ckks_multiply(encrypted, &encrypted.clone())`; for size 2 the ciphertext is resized to 3 and updated IN PLACE in the order
+    `c2 = c1 ⊙ c1`, `c1 = c0 ⊙ c1`, `c1 += c1` (the second operand of `add_inplace_p` is an alias of the block just written, i.e. the
+    product, not the old c1), `c0 = c0 ⊙ c0` -/
+def ckksSquare (l : Level) (a : Ct) : R Ct := do
+  if !a.ntt then .error .refused else
+  if a.polys.size ≠ 2 then ctMultiplyDyadic l a a else
+  if ctResizeRefuses (a.polys.size + a.polys.size - 1) then .error .refused else
+  let c0 := a.polys.getD 0 #[]; let c1 := a.polys.getD 1 #[]
+  let d2 ← rnsDyadic l c1 c1
+  let m ← rnsDyadic l c0 c1
+  let d1 ← rnsAdd l m m
+  let d0 ← rnsDyadic l c0 c0
+  pure { a with polys := #[d0, d1, d2] }
+
+/-- `bfv_square`: coefficient form required; sizes ≠ 2 go to `bfv_multiply(encrypted, &encrypted.clone())`; for size 2 the BEHZ steps
+    (1)–(3) and (5)–(8) are those of `bfv_multiply` (per polynomial instead of per batch: same values), step (4) is the fast path
+    `c0², c0·c1 added to itself, c1²` in BOTH bases (on the lazily transformed operands; the products are reduced) -/
+def bfvSquare (l : Level) (bskTables : Array NTTTables) (a : Ct) : R Ct := do
+  if a.ntt then .error .refused else
+  if a.polys.size ≠ 2 then bfvMultiply l bskTables a a else
+  if ctResizeRefuses (a.polys.size + a.polys.size - 1) then .error .refused else
+  let tool := l.tool
+  let qMs := l.qs
+  let bskMs := tool.baseBsk.base
+  -- steps (1)–(3): in the code polynomial by polynomial (base q: lazy NTT - pure -; base Bsk: extend, Montgomery-reduce, lazy NTT); the same
+  -- values, and the same first failure, as the batch form of `bfvMultiply`
+  let aq := a.polys.toList.map fun p => Array.ofFn (n := qMs.size) fun i => nttLazy (l.tbl i.val) (p.getD i.val #[])
+  let ab ← a.polys.toList.mapM fun p => do
+    let ext ← tool.fastbconvMTilde p
+    let red ← tool.smMrq ext
+    pure (Array.ofFn (n := bskMs.size) fun i => nttLazy (bskTables.getD i.val default) (red.getD i.val #[]))
+  -- step (4): the square in both bases
+  let sq (ms : Array Modulus) (xs : List RnsPoly) : R (List RnsPoly) := do
+    let x0 := xs.getD 0 #[]; let x1 := xs.getD 1 #[]
+    let d0 ← compsZip ms x0 x0 mulMod
+    let m ← compsZip ms x0 x1 mulMod
+    let d1 ← compsZip ms m m addMod
+    let d2 ← compsZip ms x1 x1 mulMod
+    pure [d0, d1, d2]
+  let dq ← sq qMs aq
+  let db ← sq bskMs ab
+  -- step (5)
+  let dq := dq.map fun p => Array.ofFn (n := qMs.size) fun i => intt (l.tbl i.val) (p.getD i.val #[])
+  let db := db.map fun p => Array.ofFn (n := bskMs.size) fun i => intt (bskTables.getD i.val default) (p.getD i.val #[])
+  -- steps (6)–(8)
+  let outs ← (List.range 3).mapM fun i => do
+    let tq ← compsMap qMs (dq.getD i #[]) (fun x m => mulMod x l.t.value m)
+    let tb ← compsMap bskMs (db.getD i #[]) (fun x m => mulMod x l.t.value m)
+    let fl ← tool.fastFloor (tq ++ tb)
+    tool.fastbconvSk fl
+  pure { a with polys := outs.toArray }
+
+end HC
+
+namespace HC
+
 /-- `translate_inplace` including the BGV branch that balances different correction factors first -/
 def ctTranslateBalanced (l : Level) (a b : Ct) (sub : Bool) : R Ct := do
   if a.cf = b.cf then ctTranslate l a b sub else do
